@@ -7,10 +7,14 @@ From CG3 Require Import Lib.PyZ Lib.Chars Model.Formats.
 Definition records_of (recs : list (str * list str)) : list rec :=
   map (fun r => (fst r, concat (snd r))) recs.
 
-(** a name every line-oriented format can carry: no line-boundary character and
-    nothing [str.strip] would remove at either end (inner blanks, '>', '#', '%' allowed) *)
+(** a name every line-oriented format can carry: no line-boundary character and no white
+    space at either end, i.e. nothing [str.strip] would remove (inner blanks, '>', '#', '%' allowed) *)
+Definition ends_ok (n : str) : bool :=
+  match n with [] => true | c :: _ => negb (is_space c) end &&
+  match rev n with [] => true | c :: _ => negb (is_space c) end.
+
 Definition ok_name (n : str) : bool :=
-  forallb (fun c => negb (is_brk c)) n && str_eqb (strip n) n.
+  forallb (fun c => negb (is_brk c)) n && ends_ok n.
 
 (** a residue character: not white space (hence not a line boundary), none of the label /
     comment characters, and unchanged by upper-casing *)
@@ -35,3 +39,37 @@ Definition ok_seq (s : str) : bool :=
 
 (** the documented PHYLIP truncation *)
 Definition phylip_name (n : str) : str := firstn 9 n.
+
+(** a record (name, sequence) the block formats can carry *)
+Definition ok_rec (r : rec) : bool := ok_name (fst r) && ok_seq (snd r).
+
+(** PAML / PHYLIP: an alignment — non-empty names, all sequences of the length of the first *)
+Definition ok_arec (len : nat) (r : rec) : bool :=
+  ok_rec r && negb (match fst r with [] => true | _ => false end) && Nat.eqb (length (snd r)) len.
+
+(** PHYLIP additionally needs the 9-character truncation of the name to be a representable name *)
+Definition ok_prec (len : nat) (r : rec) : bool := ok_arec len r && ok_name (phylip_name (fst r)).
+Definition phylip_expected (recs : list rec) : list rec := map (fun r => (phylip_name (fst r), snd r)) recs.
+
+(* ------------------------------------------------------------------ well-formed FASTA text in general *)
+
+(** a plain character of a text file: ASCII, not a line boundary and not one of the exotic white-space
+    characters — its only white space is TAB and SPACE *)
+Definition plain (c : Z) : bool := (0 <=? c) && (c <? 128) && negb (is_brk c) && negb (c =? 31).
+
+Definition nonempty (l : str) : bool := match l with [] => false | _ => true end.
+
+(** a line below a label: plain characters (blanks and tabs anywhere, the line may be empty or blank),
+    upper case, not starting with '>' or '#' *)
+Definition wf_line (l : str) : bool :=
+  forallb plain l && forallb (fun c => ascii_upper_ch c =? c) l &&
+  match l with c :: _ => negb (c =? GT) && negb (c =? HASH) | [] => true end.
+
+(** a record of a well-formed FASTA text: ANY plain label (blanks at either end, '>' inside allowed) followed by
+    lines of which at least one is not empty *)
+Definition wf_frec (r : str * list str) : bool :=
+  forallb plain (fst r) && forallb wf_line (snd r) && existsb nonempty (snd r).
+
+(** what a FASTA reader must return: the label without surrounding blanks, the residues without white space *)
+Definition gen_records (recs : list (str * list str)) : list rec :=
+  map (fun r => (strip (fst r), remove_ws (concat (snd r)))) recs.
